@@ -239,10 +239,12 @@ def count_definition(ct, rep, rule="count-definition"):
     else:
         rep.fail(rule, ct.mod.path.name, "Tdf.__len__", rets[0] if rets else f.node, "__len__ is not the number of entries with type != unusedSlot")
     b = ct.prog.need_method(ct.tdf, "blocks", "getter")
+    from ..facts import return_leaves
     rets = [s for s in walk_no_nested(b.node) if isinstance(s, ast.Return)]
+    leaves = return_leaves(b.node)
     okk = False
-    if len(rets) == 1 and isinstance(rets[0].value, ast.ListComp):
-        lc = rets[0].value
+    if len(leaves) == 1 and isinstance(leaves[0][1], ast.ListComp):
+        lc = leaves[0][1]
         g = lc.generators[0]
         var = norm(g.target)
         if ct.is_entries(g.iter) and not g.ifs and isinstance(lc.elt, ast.Call) and norm(lc.elt.func) in ("self.get_block", "self.__getitem__") \
